@@ -287,8 +287,10 @@ func (l *listener) GetOption(n string) (interface{}, error) {
 		// us running.  If he didn't mean this, the side effect is
 		// that Accept() will appear to hang, even though Listen()
 		// is not called yet.
+		l.lock.Lock()
 		l.running = true
 		l.noserve = true
+		l.lock.Unlock()
 		return l, nil
 	case OptionWebSocketCheckOrigin:
 		if v, err := l.opts.get(n); err == nil {
@@ -307,7 +309,10 @@ func (l *listener) Listen() error {
 	var err error
 	var tcfg *tls.Config
 
-	if l.closed {
+	l.lock.Lock()
+	closed := l.closed
+	l.lock.Unlock()
+	if closed {
 		return mangos.ErrClosed
 	}
 	if l.noserve {
@@ -344,8 +349,10 @@ func (l *listener) Listen() error {
 	} else {
 		l.listener = tlist
 	}
+	l.lock.Lock()
 	l.pending = nil
 	l.running = true
+	l.lock.Unlock()
 	l.bound = l.listener.Addr().(*net.TCPAddr)
 
 	l.htsvr = &http.Server{Addr: l.url.Host, Handler: l.mux}
